@@ -143,6 +143,7 @@ type localAnchor struct {
 
 type literalCheck struct {
 	pkg, name, text, line string
+	prop                  string // non-empty: only checked for this property
 }
 
 type specDB struct {
@@ -493,7 +494,16 @@ func (db *specDB) loadSpecFile(path string, pkgName string, isGo bool) error {
 			cur = nil
 		case "literal":
 			// literal <pkgVar> "<source text that must occur in its initialiser>"
-			f := strings.SplitN(strings.TrimSpace(rest), " ", 2)
+			r := strings.TrimSpace(rest)
+			onlyFor := ""
+			if strings.HasPrefix(r, "[") {
+				// literal [Cxx] <var> "text": checked only when that property is being decided
+				if j := strings.Index(r, "]"); j > 0 {
+					onlyFor = strings.TrimSpace(r[1:j])
+					r = strings.TrimSpace(r[j+1:])
+				}
+			}
+			f := strings.SplitN(r, " ", 2)
 			if len(f) != 2 {
 				return fmt.Errorf("%s: literal <var> \"text\"", where)
 			}
@@ -501,7 +511,7 @@ func (db *specDB) loadSpecFile(path string, pkgName string, isGo bool) error {
 			if err != nil {
 				return fmt.Errorf("%s: bad literal string", where)
 			}
-			db.literals = append(db.literals, literalCheck{pkg: pkgName, name: f[0], text: txt, line: where})
+			db.literals = append(db.literals, literalCheck{pkg: pkgName, name: f[0], text: txt, line: where, prop: onlyFor})
 			cur = nil
 		case "params":
 			cur.params = strings.Fields(strings.ReplaceAll(rest, ",", " "))
